@@ -68,7 +68,9 @@ pub fn exhaustive() -> Vec<Case> {
                 if kind == "choice" && n_root == 0 && layout.is_empty() {
                     continue;
                 }
-                if kind == "enum" && n_root == 0 {
+                // an empty root is not X.680 (20.1 asks for a RootEnumeration), but the lexer takes `{ ..., a, b }`: what it
+                // takes it has to number and mark like any other enumeration
+                if kind == "enum" && n_root == 0 && (!marker || layout.is_empty()) {
                     continue;
                 }
                 let mut k = 0;
